@@ -128,6 +128,13 @@ def gen(ctx: common.Ctx, n_corpus: int, n_mut: int) -> Iterator[dict[str, Any]]:
                "_case": f"x:typedgen{j}", "_kind": "typedgen"}
 
 
+def _char_at(text: str, line: int | None, col: int) -> str:
+    lines = re.split(r"\r\n|\r|\n", text)
+    if line is None or not (1 <= line <= len(lines)) or not (1 <= col <= len(lines[line - 1])):
+        return ""
+    return lines[line - 1][col - 1]
+
+
 def norm_nonsyntax(out: str) -> list[str]:
     return [e["raw"] for e in diag.parse(out) if not e["raw"].rstrip().endswith("[syntax]")]
 
@@ -170,6 +177,11 @@ def compare_levels(d_out: str, n_out: str, files: dict[str, str]) -> list[tuple[
                 k = "end-differs:one-parser-has-end-equal-start"
             elif nonascii:
                 k = "end-differs:non-ascii-line"
+            elif (a["eline"] == b["eline"] and a["ecol"] and b["ecol"] and abs(a["ecol"] - b["ecol"]) == 1
+                  and _char_at(files.get(a["file"], ""), a["eline"], max(a["ecol"], b["ecol"])) == ")"):
+                # `x + (y)`: CPython's ast ends the expression at the parenthesis closing its last operand, the native
+                # parser at the operand itself
+                k = "end-differs:closing-paren-of-last-operand"
             else:
                 k = "end-differs:other"
         out.append((k, f"D:{a['raw'][:150]} | N:{b['raw'][:150]}"))
